@@ -60,7 +60,7 @@ def run(check: Check) -> None:
     )
     check.info["rule"] = "configuration = (n, contrast+options, label type) for the ground/LRA part; (contrast, layout, reduced/full) for the pipeline part"
     nmax = 12 if thorough else 8
-    _LRA_CAP_MS[0] = 120000 if thorough else 12000
+    _LRA_CAP_MS[0] = 45000 if thorough else 12000
     check.bounds.update({"n": f"1..{nmax}", "label_types": ["str", "int", "mixed-order str", "ints holding 0", "strings holding ''"], "poly_symbolic_scores_n": 3})
     check.out_of_scope += [f"n > {nmax} ('for every n' cannot be symbolic: n is an array shape)", "custom contrasts"]
     rec = FunctionRecorder(check.functions)
